@@ -89,3 +89,159 @@ Proof.
       exists (j :: c). simpl. repeat split; auto; try lia. destruct y; simpl; lia.
     + exists []. rewrite app_nil_r. simpl. repeat split; auto. lia.
 Qed.
+
+(* ---------- values of full states ---------- *)
+From Coq Require Import Lqa.
+
+Lemma jointp_cons v r j c : jointp (v :: r) (j :: c) = nth j v 0 * jointp r c.
+Proof. reflexivity. Qed.
+
+Definition full_ok (thr : Q) (pf : key) (r : Q) (rest : list (list Q)) (y : yield) : Prop :=
+  match y with
+  | YFull st p => exists c, st = pf ++ c /\ idx_ok rest c /\ length c = length rest /\
+                            p == r * jointp rest c /\ thr <= p
+  | YCond _ _ => True
+  end.
+
+Lemma kids_full thr node prefix rp rest :
+  (forall pf r y, thr <= r -> In y (fst (node pf r)) -> full_ok thr pf r rest y) ->
+  forall l i y, In y (fst (fst (kids thr node prefix rp i l))) ->
+    match y with
+    | YFull st p => exists j c, (i <= j < i + length l)%nat /\ st = prefix ++ j :: c /\ idx_ok rest c /\
+                       length c = length rest /\ p == rp * (nth (j - i) l 0 * jointp rest c) /\ thr <= p
+    | YCond _ _ => True
+    end.
+Proof.
+  intros Hn l; induction l as [|p l' IH]; intros i y; [simpl; tauto|].
+  rewrite kids_cons. destruct (Qltb (rp * p) thr) eqn:Et; [simpl; tauto|].
+  apply Qltb_ge in Et.
+  destruct (node (prefix ++ [i]) (rp * p)) as [ys s] eqn:En.
+  destruct (kids thr node prefix rp (S i) l') as [[ys' tab] fnd] eqn:Ek.
+  assert (In y (ys ++ ys') ->
+    match y with
+    | YFull st p0 => exists j c, (i <= j < i + length (p :: l'))%nat /\ st = prefix ++ j :: c /\ idx_ok rest c /\
+                       length c = length rest /\ p0 == rp * (nth (j - i) (p :: l') 0 * jointp rest c) /\ thr <= p0
+    | YCond _ _ => True
+    end) as G.
+  { rewrite in_app_iff. intros [H|H].
+    - specialize (Hn (prefix ++ [i]) (rp * p) y Et). rewrite En in Hn. specialize (Hn H).
+      destruct y as [st p0|]; [|exact I]. destruct Hn as [c [E [O [L [V T]]]]].
+      exists i, c. rewrite <- app_assoc in E. replace (i - i)%nat with 0%nat by lia. simpl.
+      repeat split; auto; try lia. rewrite V. ring.
+    - specialize (IH (S i) y). rewrite Ek in IH. specialize (IH H).
+      destruct y as [st p0|]; [|exact I]. destruct IH as [j [c [R [E [O [L [V T]]]]]]].
+      exists j, c. replace (j - i)%nat with (S (j - S i)) by lia. simpl. repeat split; auto; lia. }
+  destruct s; simpl; exact G.
+Qed.
+
+Lemma node_full thr bases : forall pf r y, thr <= r -> In y (fst (dfs_node thr bases pf r)) -> full_ok thr pf r bases y.
+Proof.
+  induction bases as [|cur rest IH]; intros pf r y T.
+  - simpl. intros [<-|[]]. exists []. rewrite app_nil_r. simpl. repeat split; auto. ring.
+  - rewrite dfs_node_cons.
+    destruct (kids thr (dfs_node thr rest) pf r 0%nat cur) as [[ys tab] fnd] eqn:Ek.
+    intros H. apply finish_In in H. destruct H as [H|[_ [v ->]]]; [|exact I].
+    pose proof (kids_full thr (dfs_node thr rest) pf r rest IH cur 0%nat y) as K.
+    rewrite Ek in K. specialize (K H). destruct y as [st p0|]; [|exact I].
+    destruct K as [j [c [R [E [O [L [V T']]]]]]].
+    exists (j :: c). rewrite Nat.sub_0_r in V. simpl. repeat split; auto; lia.
+Qed.
+
+(* ---------- completeness under the documented precondition ---------- *)
+Definition unit_entries (v : list Q) : Prop := Forall (fun x => 0 <= x /\ x <= 1) v.
+
+Lemma jointp_unit bases c : Forall unit_entries bases -> 0 <= jointp bases c /\ jointp bases c <= 1.
+Proof.
+  revert c; induction bases as [|v r IH]; intros c F; [simpl; destruct c; lra|].
+  destruct c as [|j c]; [simpl; lra|]. rewrite jointp_cons.
+  inversion F as [|? ? Fv Fr]; subst. destruct (IH c Fr) as [A B].
+  assert (0 <= nth j v 0 /\ nth j v 0 <= 1) as [C D].
+  { destruct (Nat.lt_ge_cases j (length v)) as [L|L].
+    - unfold unit_entries in Fv. rewrite Forall_forall in Fv. apply Fv. now apply nth_In.
+    - rewrite nth_overflow by lia. lra. }
+  split; nra.
+Qed.
+
+Lemma desc_b_cons p l : desc_b (p :: l) = true -> Forall (fun x => x <= p) l /\ desc_b l = true.
+Proof.
+  revert p; induction l as [|y r IH]; intros p H; [split; [constructor|reflexivity]|].
+  simpl in H. apply andb_prop in H as [H1 H2]. apply Qle_bool_iff in H1.
+  destruct (IH y H2) as [F D]. split; [|exact H2].
+  constructor; [exact H1|]. eapply Forall_impl; [|exact F]. intros x Hx. simpl in Hx. lra.
+Qed.
+
+Lemma Qmult_le_l_nonneg a x y : 0 <= a -> x <= y -> a * x <= a * y.
+Proof. intros A H. nra. Qed.
+
+Definition has_full (ys : list yield) (st : key) : Prop := exists p, In (YFull st p) ys.
+
+Lemma kids_complete thr node prefix rp rest :
+  0 <= rp -> Forall unit_entries rest ->
+  (forall pf r c, 0 <= r -> idx_ok rest c -> length c = length rest -> thr <= r * jointp rest c ->
+        has_full (fst (node pf r)) (pf ++ c)) ->
+  forall l i j c, unit_entries l -> desc_b l = true -> (i <= j < i + length l)%nat ->
+    idx_ok rest c -> length c = length rest -> thr <= rp * (nth (j - i) l 0 * jointp rest c) ->
+    has_full (fst (fst (kids thr node prefix rp i l))) (prefix ++ j :: c).
+Proof.
+  intros Hrp Fr Hn l; induction l as [|p l' IH]; intros i j c U Dd R O L T; [simpl in R; lia|].
+  rewrite kids_cons.
+  destruct (desc_b_cons _ _ Dd) as [Fle Dd'].
+  inversion U as [|? ? [Up0 Up1] U']; subst.
+  destruct (jointp_unit rest c Fr) as [J0 J1].
+  assert (0 <= nth (j - i) (p :: l') 0 /\ nth (j - i) (p :: l') 0 <= p) as [N0 N1].
+  { destruct (j - i)%nat as [|k] eqn:Ej; simpl; [lra|].
+    assert (In (nth k l' 0) l') as Hin by (apply nth_In; simpl in R; lia).
+    rewrite Forall_forall in Fle. specialize (Fle _ Hin).
+    unfold unit_entries in U'. rewrite Forall_forall in U'. specialize (U' _ Hin). simpl in Fle. lra. }
+  assert (thr <= rp * p) as Tp.
+  { assert (nth (j - i) (p :: l') 0 * jointp rest c <= p) as A1 by nra.
+    assert (rp * (nth (j - i) (p :: l') 0 * jointp rest c) <= rp * p) as A2.
+    { apply Qmult_le_l_nonneg; auto. }
+    lra. }
+  destruct (Qltb (rp * p) thr) eqn:Et; [apply Qltb_lt in Et; lra|].
+  destruct (node (prefix ++ [i]) (rp * p)) as [ys s] eqn:En.
+  destruct (kids thr node prefix rp (S i) l') as [[ys' tab] fnd] eqn:Ek.
+  assert (has_full (ys ++ ys') (prefix ++ j :: c)) as G.
+  { destruct (Nat.eq_dec j i) as [->|Nji].
+    - replace (i - i)%nat with 0%nat in T by lia. simpl in T.
+      assert (thr <= rp * p * jointp rest c) as T2 by (rewrite <- Qmult_assoc; exact T).
+      assert (0 <= rp * p) as P0 by nra.
+      destruct (Hn (prefix ++ [i]) (rp * p) c P0 O L T2) as [q Hq].
+      rewrite En in Hq. simpl in Hq. rewrite <- app_assoc in Hq. simpl in Hq.
+      exists q. apply in_app_iff. now left.
+    - assert (nth (j - i) (p :: l') 0 = nth (j - S i) l' 0) as E1.
+      { replace (j - i)%nat with (S (j - S i)) by lia. reflexivity. }
+      rewrite E1 in T.
+      specialize (IH (S i) j c U' Dd'). rewrite Ek in IH. simpl in R.
+      destruct IH as [q Hq]; auto; try lia.
+      exists q. apply in_app_iff. now right. }
+  destruct s; simpl; exact G.
+Qed.
+
+Definition sorted_ok (bases : list (list Q)) : Prop :=
+  Forall (fun v => unit_entries v /\ desc_b v = true) bases.
+
+Lemma sorted_ok_unit bases : sorted_ok bases -> Forall unit_entries bases.
+Proof. intros H. eapply Forall_impl; [|exact H]. simpl. tauto. Qed.
+
+Lemma finish_keeps prefix ys tab fnd st : has_full ys st -> has_full (fst (finish prefix (ys, tab, fnd))) st.
+Proof.
+  intros [p H]. exists p. unfold finish. destruct fnd; [|exact H].
+  destruct prefix; cbn [fst]; apply in_app_iff; now left.
+Qed.
+
+Lemma node_complete thr bases : sorted_ok bases ->
+  forall pf r c, 0 <= r -> idx_ok bases c -> length c = length bases -> thr <= r * jointp bases c ->
+    has_full (fst (dfs_node thr bases pf r)) (pf ++ c).
+Proof.
+  induction bases as [|cur rest IH]; intros S pf r c R O L T.
+  - destruct c; [|discriminate]. exists r. rewrite app_nil_r. simpl. now left.
+  - inversion S as [|? ? [Ucur Dcur] Srest]; subst.
+    destruct c as [|j c]; [discriminate|]. simpl in O, L. destruct O as [Oj O].
+    rewrite dfs_node_cons.
+    destruct (kids thr (dfs_node thr rest) pf r 0%nat cur) as [[ys tab] fnd] eqn:Ek.
+    apply finish_keeps.
+    pose proof (kids_complete thr (dfs_node thr rest) pf r rest R (sorted_ok_unit _ Srest) (IH Srest)
+                  cur 0%nat j c Ucur Dcur) as K.
+    rewrite Ek in K. apply K; auto; try lia. rewrite Nat.sub_0_r. rewrite jointp_cons in T. exact T.
+Qed.
